@@ -351,6 +351,8 @@ def apply_stage(ds, st, parallel=True):
         return ds.map(MapFn(st['id']))
     if op == 'fresh':
         return ds.map(FreshFn(st['id']))
+    if op == 'cycle':
+        return ds.cycle()
     if op == 'falsy':
         return ds.map(FalsyFn(st['id'], st['mod'], st['rem'], st['val']))
     if op == 'slice':
